@@ -776,7 +776,7 @@ func TestGovcExcerptReplay(t *testing.T) {
 			runEmb(fmt.Sprintf("embx/%s+%s", b.name, e.name), []govcBlock{fill[0], b, e.block, fill[1]}, e)
 		}
 	}
-	fmt.Printf("GOVC-CASES evaluations=%d distinct_nontrivial=%d rule=%s\n", evals, nontrivial, fmt.Sprintf("generated articles: every ordered pair of 19 block kinds between plain paragraphs, each kind alone, all kinds together; plus %d table shapes (10 ways of marking up the table: ARIA grid/treegrid/row/gridcell roles, th, thead+tbody+tfoot, caption, summary, none, presentation x 13 cell contents: plain, inline markup, paragraphs, lists, br, rowspan/colspan, hidden span, nested tables in 6 arrangements) x {between paragraphs, alone, two in a row, inside a div with inline text} and 8 of them crossed with every block kind in both orders; plus %d carriers of text in non-visible places (figures: 9 caption kinds none/empty/white space/nbsp/comment/hidden/text/text+link/link only x 5 image markups img alt, img alt+title, picture, linked img, img+aria; images with alt/title in paragraphs, links, divs, list items, table cells; title/aria-label/data-*/cite/datetime/href/value/placeholder attributes on inline, block, table and form elements; meta content, html/body attributes, comments, script/style/template content) x {between, alone, first, last, in a div, section, blockquote, list item, table cell}, figure and image carriers also crossed with every block kind in both orders; unique tokens per block; distinct by construction; Result.Text and text nodes of Result.Node checked; non-trivial = some text was extracted, for table cases: words of the table were extracted (measured: %d table cases emitted a <table> element, %d of them with a nested table), for non-visible text cases: the carrier reached the result (measured: %d cases, in %d of them an attribute of Result.Node still holds the non-visible tokens); plus %d kinds of blocks that become non-text elements but contain words (not yet rendered tweets in 6 markups, rendered tweet / YouTube / YouTube-nocookie / Vimeo / other iframes with fallback text, YouTube and other <object> with fallback content, <video> with source, track and fallback text, alone and in a figure, figures with long captions in 5 shapes and with credit/source/byline parts inside, beside and before the caption (4 shapes), data tables with wordy cells, audio, canvas) x {between, alone, first, last, two in a row, in a div with inline text, section, blockquote, list item, list item with inline text, table cell}, 6 of them crossed with every block kind in both orders; every word at most once per view (text inside an embed placeholder counts for the HTML view), fallback content neither in Result.Text nor outside its media element / placeholder in Result.Node; non-trivial = the element reached the result (its id / URL in Result.Node or its words in the result; measured: %d cases, %d of them with an embed placeholder)", nTab, nCarriers, asTable, asTableNested, attrKept, attrInOutputAttr, nEmb, embKept, embPlaceholder))
+	fmt.Printf("GOVC-CASES evaluations=%d distinct_nontrivial=%d rule=%s\n", evals, nontrivial, fmt.Sprintf("generated articles: every ordered pair of 19 block kinds between plain paragraphs, each kind alone, all kinds together; plus %d table shapes (10 ways of marking up the table: ARIA grid/treegrid/row/gridcell roles, th, thead+tbody+tfoot, caption, summary, none, presentation x 13 cell contents: plain, inline markup, paragraphs, lists, br, rowspan/colspan, hidden span, nested tables in 6 arrangements) x {between paragraphs, alone, two in a row, inside a div with inline text} and 8 of them crossed with every block kind in both orders; plus %d carriers of text in non-visible places (figures: 9 caption kinds none/empty/white space/nbsp/comment/hidden/text/text+link/link only x 5 image markups img alt, img alt+title, picture, linked img, img+aria; images with alt/title in paragraphs, links, divs, list items, table cells; title/aria-label/data-*/cite/datetime/href/value/placeholder attributes on inline, block, table and form elements; meta content, html/body attributes, comments, script/style/template content) x {between, alone, first, last, in a div, section, blockquote, list item, table cell}, figure and image carriers also crossed with every block kind in both orders; unique tokens per block; distinct by construction; Result.Text and text nodes of Result.Node checked; non-trivial = some text was extracted, for table cases: words of the table were extracted (measured: %d table cases emitted a <table> element, %d of them with a nested table), for non-visible text cases: the carrier reached the result (measured: %d cases, in %d of them an attribute of Result.Node still holds the non-visible tokens); plus %d kinds of blocks that become non-text elements but contain words (not yet rendered tweets in 6 markups, rendered tweet / YouTube / YouTube-nocookie / Vimeo / other iframes with fallback text, YouTube and other <object> with fallback content, <video> with source, track and fallback text, alone and in a figure, figures with long captions in 5 shapes and with credit/source/byline parts inside, beside and before the caption (4 shapes), data tables with wordy cells and with tfoot written before tbody, audio, canvas) x {between, alone, first, last, two in a row, in a div with inline text, section, blockquote, list item, list item with inline text, table cell}, 6 of them crossed with every block kind in both orders; every word at most once per view (text inside an embed placeholder counts for the HTML view), fallback content neither in Result.Text nor outside its media element / placeholder in Result.Node; non-trivial = the element reached the result (its id / URL in Result.Node or its words in the result; measured: %d cases, %d of them with an embed placeholder)", nTab, nCarriers, asTable, asTableNested, attrKept, attrInOutputAttr, nEmb, embKept, embPlaceholder))
 }
 
 // govcC02Carrier is a block that carries tokens (infix QQH) in non-visible places of the source.
@@ -1205,6 +1205,11 @@ func govcC02Embeds(pfx string) []govcC02Embed {
 	tb.table = true
 	tb = add("data-table-long-cells", false, func() (string, string) {
 		return "<table><caption>" + v(5) + "</caption><thead><tr><th>" + v(1) + "</th><th>" + v(1) + "</th></tr></thead><tbody><tr><td>" + v(2) + "</td><td><p>" + v(25) + "</p><p>" + v(25) + "</p></td></tr><tr><td>" + v(2) + "</td><td>" + v(40) + "</td></tr></tbody><tfoot><tr><td>" + v(2) + "</td><td>" + v(12) + "</td></tr></tfoot></table>", ""
+	})
+	tb.table = true
+	// section order as written in HTML 4 (tfoot before tbody), two bodies, caption after a colgroup
+	tb = add("data-table-tfoot-first", false, func() (string, string) {
+		return "<table><caption>" + v(5) + "</caption><colgroup><col><col></colgroup><thead><tr><th>" + v(1) + "</th><th>" + v(2) + "</th></tr></thead><tfoot><tr><td>" + v(2) + "</td><td>" + v(6) + "</td></tr></tfoot><tbody><tr><td>" + v(2) + "</td><td>" + v(9) + "</td></tr><tr><td>" + v(2) + "</td><td>" + v(8) + "</td></tr></tbody><tbody><tr><th>" + v(2) + "</th><td>" + v(7) + "</td></tr></tbody></table>", ""
 	})
 	tb.table = true
 
